@@ -109,8 +109,15 @@ def gen_class(lang, name, n_pub, n_priv, extras, blank, comment, start_line, sty
     return L, pub, loc, start_line
 
 
-def _run(rule_cls, lang, content, md):
+_WARM = {"python": "class Other:\n    def a(self):\n        return 1\n", "typescript": "class Other {\n  a() {\n    return 1;\n  }\n}\n",
+         "rust": "struct Other;\nimpl Other {\n    fn a(&self) -> i64 {\n        1\n    }\n}\n"}
+
+
+def _run(rule_cls, lang, content, md, warm_lang=None):
     rule = rule_cls()
+    if warm_lang:
+        # one run = one rule object and one configuration: the file judged is not the first file of the run
+        rule.check(mkctx(warm_lang, _WARM[warm_lang], md))
     return rule.check(mkctx(lang, content, md))
 
 
@@ -141,6 +148,16 @@ def make_harness(tier):
                 cfg[key] = {"max_methods": omm, "max_loc": oml}
                 if ov == "own":
                     eff_mm, eff_ml = omm, oml
+        warm = None
+        if ov != "none" and nclasses == 1:
+            wk = ctx.pick("earlier_file_in_the_same_run", ("none", "of-the-overridden-language", "of-a-third-language"))
+            okey = key if key in _WARM else "typescript"
+            base_lang = "typescript" if lang == "javascript" else lang
+            if wk == "of-the-overridden-language":
+                ctx.assume(okey != base_lang)
+                warm = okey
+            elif wk == "of-a-third-language":
+                warm = next(l for l in ("python", "typescript", "rust") if l not in (base_lang, okey))
         lines, classes = ["// header" if lang != "python" else "# header", ""], []
         for c in range(nclasses):
             name = ctx.pick(f"name{c}", ("Widget" + str(c), "DataManager" + str(c)))
@@ -168,7 +185,7 @@ def make_harness(tier):
             classes.append((name, pub, loc, hl, extras))
             lines += L + [""]
         content = "\n".join(lines)
-        vs = _run(SRPRule, lang, content, {"srp": cfg})
+        vs = _run(SRPRule, lang, content, {"srp": cfg}, warm)
         ctx.require("only-srp-violations", all(v.rule_id == "srp.violation" for v in vs))
         for name, pub, loc, hl, _extras in classes:
             mine = [v for v in vs if f"'{name}'" in v.message]
